@@ -136,7 +136,10 @@ structure S where
   n : Nat := 0
   k : Array Float := #[]
   kind : String := ""
+  /-- the policy in force for the current run: the one the optimiser had at its last `init` -/
   pol : Policy := .keep
+  /-- what `setConstraintPolicy` was last called with (applied by the next `init`) -/
+  polNext : Policy := .keep
   tolGiven : Option Float := none
   mx : Nat := 0
   extra : List String := []
@@ -155,6 +158,14 @@ structure S where
   lastCur : Option Float := none
   inactive : Bool := true
   implDead : Bool := false
+  /-- the starting point of the current run satisfies the constraints of the list given to `init`
+  (always, except for a meta-optimiser used again: it starts from the function's own point, and its
+  `doInit` raises - `matchParametersValues` checks before it assigns - when an earlier run under
+  another policy / other constraints has left the function outside the new ones: an input outside the
+  property's quantifier) -/
+  admissible : Bool := true
+  /-- an `init` has been answered since the optimiser was built -/
+  inited : Bool := false
 
 /-- the cap of the harness objective on the number of points logged within one call -/
 def evalCap : Nat := 100000
@@ -263,6 +274,8 @@ def mkOpt (s : S) : OptSt :=
   | "bfgs", _ =>
     .bfgs { core := mkCore s.pol s.mx (tol 0.000001) 0, fn := s.fn0, ext := Bfgs.fresh }
   | "meta", ty :: r =>
+    -- other configurations than the default one (`sb`) are explored through the predicates only
+    if r.length ≥ 2 && r.getD 1 "sb" != "sb" then .unmodelled else
     -- first half of the function's parameters: coordinate-wise Brent; second half: BFGS (harness/C10.cpp)
     let h := (s.n + 1) / 2
     let ext : Meta Float :=
@@ -390,6 +403,18 @@ def marginOk (cons : Spec.Cons Float) (pt : List Float) : Bool :=
         | _ => true)
     | _, _ => true)
 
+/-- at least 1e-3 inside every finite bound -/
+def marginWide (cons : Spec.Cons Float) (pt : List Float) : Bool :=
+  cons.all (fun nc => match nc.2, pt[nc.1]? with
+    | some c, some x =>
+      (match c.lo with
+        | .fin l => x > l + 1e-3
+        | _ => true) &&
+      (match c.hi with
+        | .fin h => x < h - 1e-3
+        | _ => true)
+    | _, _ => true)
+
 def writeInto (pt : List Float) (names : List Nat) (vals : List Float) : List Float :=
   (names.zip vals).foldl (fun p nv => p.set nv.1 nv.2) pt
 
@@ -407,7 +432,7 @@ def verdictRun (s : S) (o : String) (t : List String) : S × String :=
   let s1 := { s with inactive := s.inactive && log.all (marginOk s.cons) }
   if status != "ok" then
     let s2 := { s1 with implDead := true }
-    if s.pol == .auto && status != "exc:cap" then (s2, "FAIL:auto_no_raise")
+    if s.pol == .auto && status != "exc:cap" && s.admissible then (s2, "FAIL:auto_no_raise")
     else if s.pol != .ignore && !Spec.feasibleLog s.cons log then
       (s2, if s.pol == .auto then "FAIL:auto_policy_feasible" else "FAIL:keep_policy_feasible")
     else (s2, "ok")
@@ -466,14 +491,17 @@ def verdictRun (s : S) (o : String) (t : List String) : S × String :=
         | some lo, some hi, some x => (if lo < hi then lo else hi) ≤ x && x ≤ (if lo < hi then hi else lo)
         | _, _, _ => false
       | _, _, _ => false)
-    if s.fam == 0 && h.convex && h.full && tolR && s.tolGiven.isSome && s.mx ≥ 2000 && (s.pol == .ignore || s1.inactive)
+    let touched := !(s.pol == .ignore || s1.inactive)
+    if s.fam == 0 && h.convex && h.full && tolR && s.tolGiven.isSome && s.mx ≥ 2000 && (!touched || marginWide s.cons h.xs)
         && s.kind != "nback" && inInterval && h.xs.length == s.n then
       let fstar := s.obj h.xs
       let f0 := s.startVal.getD cur
       let scale := [1.0, Float.abs fstar, Float.abs (f0 - fstar)].foldl (fun m x => if x > m then x else m) 0
       let kap := if h.kappa > 1 then h.kappa else 1
       let bound := 100 * s.n.toFloat * kap * s.tolGiven.getD 0 * scale
-      if cur - fstar ≤ bound then (s1, "ok") else (s1, "FAIL:convergence")
+      -- a run that came within 1e-6 of a bound (a start on a bound, a trial the automatic policy corrected)
+      -- although the minimiser lies well inside every bound is judged under a clause of its own
+      if cur - fstar ≤ bound then (s1, "ok") else (s1, if touched then "FAIL:convergence_touching_bound" else "FAIL:convergence")
     else (s1, "ok")
   | none => (s1, "ok")
 
@@ -512,7 +540,7 @@ def step (s : S) (op : List String) (impl : Option (List String)) : S × String 
     let fn0 := match coreOf s.opt with
       | some (_, fn) => { fn with log := [] }
       | none => s.fn0
-    let s1 := { s with kind := kind, pol := pol, tolGiven := if tol == "-" then none else pF tol, mx := (nat? mx).getD 0,
+    let s1 := { s with kind := kind, pol := pol, polNext := pol, inited := false, tolGiven := if tol == "-" then none else pF tol, mx := (nat? mx).getD 0,
                        extra := extra, fn0 := fn0 }
     ({ s1 with opt := mkOpt s1 }, "ok", "ok")
   | ["clone"] => (s, "ok", "ok")       -- a copy of an optimiser behaves like the original
@@ -520,6 +548,10 @@ def step (s : S) (op : List String) (impl : Option (List String)) : S × String 
     match nat? n with
     | some n => ({ s with mx := n, opt := mapCore (fun c => { c with nbEvalMax := n }) s.opt }, "ok", "ok")
     | none => (s, "bad-op", "-")
+  | ["setpol", p] =>
+    -- the same optimiser object used again under another policy: `constraintPolicy_` is read by `init` only
+    let pol := if p == "a" then Policy.auto else if p == "i" then Policy.ignore else Policy.keep
+    ({ s with polNext := pol, opt := mapCore (fun c => { c with policy := pol }) s.opt }, "ok", "ok")
   | "bracket" :: mode :: a :: b :: nint :: ix :: v :: r =>
     match pF a, pF b, nat? nint, nat? ix, pF v, pCon r with
     | some a, some b, some nint, some ix, some v, some (c, r') =>
@@ -548,12 +580,21 @@ def step (s : S) (op : List String) (impl : Option (List String)) : S × String 
         let names := l.map (·.1)
         -- the starting point: the function's point with the values of the list written into it (the
         -- meta-optimiser starts from the function's own point: its doInit reads the values back)
-        let start := if s.kind == "meta" then s.obj s.fpoint else s.obj (writeInto s.fpoint names (l.map (·.2.1)))
-        let s0 := { s with names := names, cons := l.map (fun t => (t.1, t.2.2.1)), startVal := some start, curInit := none, inactive := true }
+        let cons : Spec.Cons Float := l.map (fun t => (t.1, t.2.2.1))
+        let pol := s.polNext
+        -- (a meta-optimiser used again under constraints the function's own point violates starts from the
+        -- corrected point, automatic policy, or raises, keep: no starting value to compare with then)
+        let start :=
+          if s.kind == "meta" then (if pol == .ignore || Spec.feasiblePoint cons s.fpoint then s.obj s.fpoint else 1.0 / 0.0)
+          else s.obj (writeInto s.fpoint names (l.map (·.2.1)))
+        let adm := !(s.kind == "meta" && pol != .ignore && !Spec.feasiblePoint cons s.fpoint)
+        let s0 := { s with pol := pol, admissible := adm, names := names, cons := cons, startVal := some start, curInit := none, inactive := true }
         let (s1, out) : S × String :=
           if s0.modelDead || !modelled s0.opt then (s0, "-") else answer s0 (runInit s0 pl)
         match impl with
-        | some t => let (s2, v) := verdictRun s1 "init" t; (s2, out, v)
+        -- after an exception the harness does not touch the optimiser any more
+        | some ("exc:dead" :: _) => (s1, out, "ok")
+        | some t => let (s2, v) := verdictRun { s1 with inited := true } "init" t; (s2, out, v)
         | none => (s1, out, "-")
       | none => (s, "bad-op", "-")
     | none => (s, "bad-op", "-")
@@ -568,7 +609,9 @@ def step (s : S) (op : List String) (impl : Option (List String)) : S × String 
         else if s.modelDead then (s, "exc:dead")
         else answer s (if o == "step" then runStep s else runOptimize s)
       match impl with
-      | some t => let (s2, v) := verdictRun s1 o t; (s2, out, v)
+      -- (a script cut down by the shrinker may call an optimiser that was never initialised: `optimize`
+      -- refuses, `step` does not check; nothing of the property is about that)
+      | some t => if s1.inited then (let (s2, v) := verdictRun s1 o t; (s2, out, v)) else (s1, out, "ok")
       | none => (s1, out, "-")
   | _ => (s, "bad-op", "-")
 
